@@ -283,6 +283,25 @@ func GenCase(seed int64, idx int, pool []*ChainInfo) *CaseSpec {
 			}
 		}
 	}
+	// Stale-tip family: the batch re-reads the tip at its end and gets H; the
+	// block H+1 that creates or spends the focus outpoint arrives, and the
+	// focus (start H+1) is enqueued, right after that read and before the
+	// scanner looks at its queue again.
+	staleTip := int32(-1)
+	if idx%9 == 7 && !extJoin && forced == nil {
+		if op, ok := pick(rng, ci.SpentLater); ok {
+			h := ci.Spent[op].Height
+			if rng.Intn(2) == 0 {
+				h = ci.Created[op.Hash].Height
+			}
+			if h >= 4 && h <= L {
+				v0, staleTip = h-1, h
+				op := op
+				forced = &op
+				cs.PlanOp, cs.PlanStart, cs.PlanArrival, cs.PlanFault = "spent-later", "tip+1", "best-post-stale", "none"
+			}
+		}
+	}
 	cs.V0 = v0
 	var exts []int32
 	for v := v0; v < L && len(exts) < 2 && (rng.Intn(3) > 0 || extJoin && len(exts) == 0); {
@@ -369,6 +388,8 @@ func GenCase(seed int64, idx int, pool []*ChainInfo) *CaseSpec {
 	case "block-equal":
 		gateH = clampH(int64(fstart))
 		focusTrig = Trigger{Kind: THeight, CB: CBlock, Height: int32(gateH)}
+	case "best-post-stale":
+		focusTrig = Trigger{Kind: TCall, CB: CBestPost, N: 2}
 	}
 	pre := Step{Trig: Trigger{Kind: TPre}}
 	if focusTrig.Kind != TPre && focusTrig.Kind != TIdle {
@@ -392,6 +413,10 @@ func GenCase(seed int64, idx int, pool []*ChainInfo) *CaseSpec {
 		pre.Acts = append(pre.Acts, Action{Kind: AEnqueue, Req: cidx})
 	}
 	focusStep := Step{Trig: focusTrig, Acts: []Action{{Kind: AEnqueue, Req: focus}}}
+	if staleTip >= 0 {
+		focusStep.Acts = []Action{{Kind: AExtend, To: staleTip}, {Kind: AEnqueue, Req: focus}}
+		exts = nil
+	}
 	if extJoin && len(exts) > 0 {
 		focusStep.Acts = []Action{{Kind: AExtend, To: exts[0]}, {Kind: AEnqueue, Req: focus}}
 		exts = exts[1:]
